@@ -46,6 +46,7 @@ pub struct Req {
     pub ret: usize,  // bytes returned by a read
     pub result: Option<bool>, // effect applied (at grant time): Some(ok)
     pub rdata: Option<Vec<u8>>, // data read at grant time, handed to the future when polled
+    pub aseq: usize, // position in the order in which effects were applied (usize::MAX: never applied)
 }
 
 #[derive(Clone, Debug)]
@@ -56,6 +57,7 @@ pub struct FaultRule {
     pub nth: usize, // fail the nth matching request (0-based); usize::MAX = all
     pub seen: usize,
     pub active: bool,
+    pub chain: bool, // (kind Z) the write request that follows a failed punch on the same range fails too
 }
 
 pub struct SimInner {
@@ -66,6 +68,8 @@ pub struct SimInner {
     pub faults: Vec<FaultRule>,
     pub faults_on: bool,
     pub fail_by_index: Option<usize>, // fail the request with this sequence number
+    pub chain_pending: Option<(u64, usize)>,
+    pub apply_seq: usize,
     pub hold: bool,
     pub inflight: BTreeMap<usize, Option<Waker>>, // id -> waker of the waiting future
     pub granted: BTreeMap<usize, bool>,
@@ -88,6 +92,8 @@ impl SimFile {
             faults: Vec::new(),
             faults_on: true,
             fail_by_index: None,
+            chain_pending: None,
+            apply_seq: 0,
             hold: false,
             inflight: BTreeMap::new(),
             granted: BTreeMap::new(),
@@ -141,6 +147,11 @@ impl SimFile {
         }
         let end = off.saturating_add(len as u64);
         let mut fail = false;
+        if kind == Kind::Write && s.chain_pending == Some((off, len)) {
+            s.chain_pending = None;
+            fail = true;
+        }
+        let mut chain = None;
         for f in s.faults.iter_mut() {
             if !f.active || f.kind != kind {
                 continue;
@@ -153,9 +164,15 @@ impl SimFile {
             if hit {
                 if f.nth == usize::MAX || f.seen == f.nth {
                     fail = true;
+                    if f.chain {
+                        chain = Some((off, len));
+                    }
                 }
                 f.seen += 1;
             }
+        }
+        if chain.is_some() {
+            s.chain_pending = chain;
         }
         fail
     }
@@ -179,6 +196,7 @@ impl SimFile {
             ret: 0,
             result: None,
             rdata: None,
+            aseq: usize::MAX,
         });
         if kind != Kind::Read {
             s.modifying_reqs += 1;
@@ -201,6 +219,8 @@ impl SimFile {
         };
         let mut fail = Self::should_fail(&mut s, kind, off, len, id);
         s.log[id].done = true;
+        s.log[id].aseq = s.apply_seq;
+        s.apply_seq += 1;
         // offsets a host file cannot have (off_t is signed): EINVAL
         if kind != Kind::Sync && (off >= (1 << 62) || (len as u64) >= (1 << 62)) {
             fail = true;
